@@ -9,18 +9,44 @@ import (
 
 // gostmt.go: symbolic execution of statements; loops are cut at their invariants.
 
+const maxLivePaths = 4
+
 func (x *fnv) execBlock(s *State, list []ast.Stmt) flows {
 	var out flows
-	cur := s
+	curs := []*State{s}
 	for _, st := range list {
-		if cur == nil {
+		if len(curs) == 0 {
 			break
 		}
-		f := x.execStmt(cur, st)
-		out.absorb(f)
-		cur = f.next
+		// loops are cut once, on the join of the paths reaching them; so are long fan-outs
+		switch st.(type) {
+		case *ast.ForStmt, *ast.RangeStmt, *ast.LabeledStmt, *ast.SwitchStmt, *ast.TypeSwitchStmt, *ast.SelectStmt:
+			if len(curs) > 1 {
+				curs = []*State{x.h.Merge(curs)}
+			}
+		}
+		if len(curs) > maxLivePaths {
+			curs = []*State{x.h.Merge(curs)}
+		}
+		var nexts []*State
+		for _, cur := range curs {
+			if cur == nil {
+				continue
+			}
+			f := x.execStmt(cur, st)
+			out.absorb(f)
+			nexts = append(nexts, f.paths()...)
+		}
+		curs = nexts
 	}
-	out.next = cur
+	switch len(curs) {
+	case 0:
+	case 1:
+		out.next = curs[0]
+	default:
+		out.nexts = curs
+		out.next = x.h.Merge(curs)
+	}
 	return out
 }
 
@@ -134,7 +160,7 @@ func (x *fnv) execStmt(s *State, st ast.Stmt) (out flows) {
 			s1.Assume(cond.Term)
 			f := x.execBlock(s1, st.Body.List)
 			out.absorb(f)
-			ends = append(ends, f.next)
+			ends = append(ends, f.paths()...)
 		}
 		if !cond.Term.IsTrue() {
 			s2 := s.Clone()
@@ -142,12 +168,21 @@ func (x *fnv) execStmt(s *State, st ast.Stmt) (out flows) {
 			if st.Else != nil {
 				f := x.execStmt(s2, st.Else)
 				out.absorb(f)
-				ends = append(ends, f.next)
+				ends = append(ends, f.paths()...)
 			} else {
 				ends = append(ends, s2)
 			}
 		}
+		var live []*State
+		for _, e := range ends {
+			if e != nil {
+				live = append(live, e)
+			}
+		}
 		out.next = x.h.Merge(ends)
+		if len(live) > 1 {
+			out.nexts = live
+		}
 		return out
 	case *ast.ForStmt:
 		return x.execFor(s, st, "")
@@ -767,7 +802,9 @@ func (x *fnv) havocLoop(s *State, w *writeSet, lp *loopCtx, tag string) []string
 			continue
 		}
 		if !lp.refined {
-			s.mem[rn] = c.Havoc(m, tag, func(ref, idx *Term) *Term { return c.False() })
+			hm := c.Havoc(m, tag, func(ref, idx *Term) *Term { return c.False() })
+			c.SetBaseTop(hm.RawOf(), top)
+			s.mem[rn] = hm
 			continue
 		}
 		var ts []modTarget
@@ -776,13 +813,15 @@ func (x *fnv) havocLoop(s *State, w *writeSet, lp *loopCtx, tag string) []string
 				ts = append(ts, tg)
 			}
 		}
-		s.mem[rn] = c.Havoc(m, tag, func(ref, idx *Term) *Term {
+		hm := c.Havoc(m, tag, func(ref, idx *Term) *Term {
 			keep := []*Term{c.Le(ref, headTop)}
 			for _, tg := range ts {
 				keep = append(keep, c.Not(tg.match(ref, idx)))
 			}
 			return c.And(keep...)
 		})
+		c.SetBaseTop(hm.RawOf(), top)
+		s.mem[rn] = hm
 	}
 	return regions
 }
@@ -830,6 +869,22 @@ func (x *fnv) checkInvariants(s *State, lp *loopCtx, phase string, pos token.Pos
 		label := cl.Label
 		if label == "" {
 			label = fmt.Sprintf("%d", i+1)
+		}
+		// an invariant whose assumption form is literally among the facts (nothing it reads has changed)
+		// holds trivially; no query is needed
+		env2 := x.newSpecEnv(s, x.entry, x.pkg.PkgPath)
+		x.bindLocals(env2, lp)
+		n0 := len(s.pc)
+		ga := env2.assumption(cl.Expr)
+		known := false
+		for _, a := range s.pc[:n0] {
+			if a == ga {
+				known = true
+				break
+			}
+		}
+		if known {
+			continue
 		}
 		g := env.goal(cl.Expr)
 		x.oblige(s, fmt.Sprintf("inv.%d.%s", lp.ord, phase), label, g, pos, cl)
@@ -929,7 +984,7 @@ func (x *fnv) execFor(s *State, st *ast.ForStmt, label string) (out flows) {
 	headSnap := body.Clone()
 	f := x.execBlock(body, st.Body.List)
 	out.absorb(flows{ret: f.ret, pan: f.pan})
-	ends := []*State{f.next}
+	ends := f.paths()
 	for _, j := range f.cont {
 		if j.label == "" || j.label == label {
 			ends = append(ends, j.s)
@@ -1047,7 +1102,7 @@ func (x *fnv) execRange(s *State, st *ast.RangeStmt, label string) (out flows) {
 		headSnap := body.Clone()
 		f := x.execBlock(body, st.Body.List)
 		out.absorb(flows{ret: f.ret, pan: f.pan})
-		ends := []*State{f.next}
+		ends := f.paths()
 		for _, j := range f.cont {
 			if j.label == "" || j.label == label {
 				ends = append(ends, j.s)
